@@ -444,8 +444,13 @@ static int property_main(const Options &o) {
       continue;
     std::string file = g_root + "/" + k.reproducer;
     std::string cls, hash, detail;
-    if (!fresh_replay(file, "", cls, hash, detail))
+    if (!fresh_replay(file, "", cls, hash, detail)) {
+      // the reproducer killed the process: for a fixed finding (e.g. a memory
+      // error) that is the defect coming back
+      if (k.status == "fixed")
+        violation_lines.push_back("VIOLATION property=" + o.property + " replay=" + file);
       continue;
+    }
     if (k.status == "known") {
       if (!cls.empty())
         kf_lines.push_back("KNOWN-FINDING: property=" + o.property + " " + k.id + " " + k.what);
@@ -483,7 +488,7 @@ static int property_main(const Options &o) {
   for (int w = 0; w < W; w++)
     launch(w, o.start_index);
   long crashed = 0;
-  std::vector<std::string> crash_notes;
+  std::vector<std::string> crash_notes, crash_files;
   for (int w = 0; w < W; w++) {
     for (;;) {
       int status = 0;
@@ -498,10 +503,30 @@ static int property_main(const Options &o) {
         if (line.compare(0, 9, "{\"start\":") == 0)
           last_start = atol(line.c_str() + 9);
       crashed++;
-      if (crash_notes.size() < 10)
+      bool noted = crash_notes.size() < 10;
+      if (noted)
         crash_notes.push_back("worker " + std::to_string(w) + " died (status " +
                               std::to_string(status) + ") in run index " +
                               std::to_string(last_start));
+      if (last_start >= 0 && crash_files.size() < 20) {
+        // keep the case for triage: build/crabsim --replay <file>
+        std::vector<std::string> args = {"--property", o.property, "--tier", o.tier, "--seed",
+                                         std::to_string(o.seed), "--start",
+                                         std::to_string(last_start), "--dump-case"};
+        if (!o.domains.empty()) {
+          args.push_back("--domains");
+          args.push_back(o.domains);
+        }
+        std::string dumped;
+        if (run_self(args, &dumped) == 0) {
+          std::string cf = outdir + "/crash_" + std::to_string(o.seed) + "_" +
+                           std::to_string(last_start) + ".replay.json";
+          write_file(cf, dumped);
+          crash_files.push_back(cf);
+          if (noted)
+            crash_notes.back() += " case=" + cf;
+        }
+      }
       if (last_start < 0 || crashed > 200)
         break;
       // next index of this worker's stride
@@ -716,6 +741,12 @@ static int property_main(const Options &o) {
   cov.set("fault_kinds_fired", faults);
   cov.set("workers", W);
   cov.set("worker_crashes", crashed);
+  {
+    Json cf = Json::arr();
+    for (auto &f : crash_files)
+      cf.push(f);
+    cov.set("worker_crash_cases", cf);
+  }
   cov.set("violation_candidates", violations_found);
   cov.set("nondeterministic_candidates", nondeterministic);
   cov.set("candidates_attributed_to_known_findings", attributed_total);
